@@ -27,6 +27,9 @@ KEYS = ["a", "b", "item", "type", "x1", "_k", "k-2", "k.3", "config"]
 CONF += ["1e3", "6E23", "-2e-5", "see // docs", "x //", "// y", "/* z */", "# c", "a # b", "0x1F", "0o17", "1_000", "12:30:00", "2001-01-01", "=", "<<",
          "a\n\nb", "a\x85b"]
 KEYS += ["a // b", "y", "CONFIG"]
+# text that spells an entity or character reference (encoded once, decoded once), and keys that are XML names outside ASCII
+CONF += ["&amp;", "AT&amp;T", "a &lt; b", "&gt;&gt;", "&quot;q&quot;", "&apos;", "&#65;", "&amp;amp;", "&#x41;&#10;", "%41", "\\u0041", "größe"]
+KEYS += ["größe", "标签", "настройки", "é"]
 
 
 def inner_keys(t):
@@ -43,7 +46,8 @@ def inner_keys(t):
 
 def xml_name(k):
     import re
-    return isinstance(k, str) and re.match(r"^[A-Za-z_][A-Za-z0-9_.\-]*\Z", k) is not None
+    start = "A-Za-z_\u00C0-\u00D6\u00D8-\u00F6\u00F8-\u02FF\u0370-\u037D\u037F-\u1FFF\u3001-\uD7FF"
+    return isinstance(k, str) and re.match("^[" + start + "][" + start + "0-9.\\-\u00B7]*\\Z", k) is not None
 
 
 def gen_tree(rng, depth=3, top=True):
